@@ -169,8 +169,12 @@ func main() {
 				f.Decls = append(f.Decls, &ast.GenDecl{Tok: token.VAR, Specs: []ast.Spec{&ast.ValueSpec{Names: []*ast.Ident{ast.NewIdent("_")},
 					Values: []ast.Expr{&ast.SelectorExpr{X: ast.NewIdent("os"), Sel: ast.NewIdent("Getpid")}}}}})
 			}
+			// Print from structure alone: the rewritten tree mixes nodes with and without position information, which
+			// makes the printer place line breaks inside expressions. Comments are dropped (the files carry no build
+			// constraints), then an empty file set makes every position "unknown".
+			f.Comments = nil
 			var buf bytes.Buffer
-			if err := format.Node(&buf, p.Fset, f); err != nil {
+			if err := format.Node(&buf, token.NewFileSet(), f); err != nil {
 				fmt.Fprintln(os.Stderr, "format", fname, err)
 				os.Exit(2)
 			}
